@@ -86,7 +86,7 @@ func (n *Node) firstTag() int {
 // loopKind reports whether n establishes a nil block (and an implicit tagbody).
 func loopKind(k string) bool {
 	switch k {
-	case "dolist", "dotimes", "do", "prog", "dostar", "progstar", "dovector", "loop":
+	case "dolist", "dotimes", "do", "prog", "dostar", "progstar", "dovector", "loop", "dosym", "doext", "doall":
 		return true
 	}
 	return false
@@ -98,9 +98,9 @@ func loopKind(k string) bool {
 // only of the ones its quantifier lists).
 var plainKinds = []string{"seq", "let", "when", "unless", "cond", "lambda", "send",
 	"case", "ecase", "casedef", "typecase", "etypecase", "progv", "wots", "wifs", "wos", "letstar", "mvb", "or", "and",
-	"prog1", "prog2", "mvp1", "wslots", "wifo", "wsio"}
+	"prog1", "prog2", "mvp1", "wslots", "wifo", "wsio", "select", "wzw"}
 
-var loopKinds = []string{"dolist", "dotimes", "do", "prog", "dostar", "progstar", "dovector", "loop"}
+var loopKinds = []string{"dolist", "dotimes", "do", "prog", "dostar", "progstar", "dovector", "loop", "dosym", "doext", "doall"}
 
 
 // Fault is the injected fault of a run.
@@ -367,13 +367,13 @@ func (g *genCtx) node(depth int) Node {
 			// body is an implicit tagbody
 			g.blocks = append(g.blocks, "nil")
 			n := Node{K: k, ID: id}
-			if k != "loop" && (k == "prog" || k == "progstar" || g.r.Pct(35)) {
+			if k != "loop" && k != "doall" && (k == "prog" || k == "progstar" || g.r.Pct(35)) {
 				n.Tags = true
 				n.Sym = g.r.Pct(40)
 				g.taggedKids(&n, depth, 2+g.r.Intn(2))
 			} else {
 				n.Kids = g.kids(depth-1, 2)
-				if (k == "dolist" || k == "dotimes" || k == "do" || k == "dostar" || k == "dovector") && g.r.Pct(30) {
+				if (k == "dolist" || k == "dotimes" || k == "do" || k == "dostar" || k == "dovector" || k == "dosym" || k == "doext") && g.r.Pct(30) {
 					// one more kid as the result form of the loop (inside the
 					// nil block, outside the body)
 					n.ResKid = true
@@ -588,7 +588,15 @@ func (n *Node) render(dir string, b *strings.Builder) {
 		fmt.Fprintf(b, "(with-slots (a) c07-inst %s)", all())
 	case "loop":
 		fmt.Fprintf(b, "(let ((lv%d (loop %s (return 'lp)))) (sim-emit \"bend\" \"nil\" lv%d) lv%d)", n.ID, all(), n.ID, n.ID)
-	case "dolist", "dotimes", "do", "prog", "dostar", "progstar", "dovector":
+	case "doall":
+		// every symbol of every package: the body leaves in its first round
+		fmt.Fprintf(b, "(let ((lv%d (do-all-symbols (e%d) %s (return 'dal)))) (sim-emit \"bend\" \"nil\" lv%d) lv%d)", n.ID, n.ID, all(), n.ID, n.ID)
+	case "select":
+		// the clause of a select is a body: the channel always holds an item
+		fmt.Fprintf(b, "(progn (channel-push c07-sel 1) (select (c07-sel sv%d %s)))", n.ID, all())
+	case "wzw":
+		fmt.Fprintf(b, "(with-zip-writer (zw%d (make-string-output-stream)) %s)", n.ID, all())
+	case "dolist", "dotimes", "do", "prog", "dostar", "progstar", "dovector", "dosym", "doext":
 		body := all()
 		res := ""
 		if n.ResKid && !n.Tags && len(n.Kids) > 1 {
@@ -623,6 +631,13 @@ func (n *Node) render(dir string, b *strings.Builder) {
 				vec = "(vector)"
 			}
 			head = fmt.Sprintf("dovector (e%d %s%s)", n.ID, vec, res)
+		case "dosym", "doext":
+			// a package made by the harness: two exported variables / none
+			pk := "c07-two"
+			if n.Zero {
+				pk = "c07-zero"
+			}
+			head = fmt.Sprintf("%s (e%d (find-package \"%s\")%s)", map[string]string{"dosym": "do-symbols", "doext": "do-external-symbols"}[n.K], n.ID, pk, res)
 		case "do", "dostar":
 			if res == "" {
 				res = " 'done"
@@ -733,7 +748,7 @@ func errForm(kind string) string {
 func (c *Case) source(dir string) string {
 	var b strings.Builder
 	b.WriteString("(progn (unless (boundp 'c07-caller) (defflavor c07-caller-flavor () ()) (defmethod (c07-caller-flavor :call) (f) (funcall f 1)) (defvar c07-caller (make-instance 'c07-caller-flavor)) (defclass c07-cls () ((a :initform 1))) (defvar c07-inst (make-instance 'c07-cls)))\n")
-	b.WriteString("(let (")
+	b.WriteString("(let ((c07-sel (make-channel 64)) ")
 	for i := 0; i < c.Mutexes; i++ {
 		fmt.Fprintf(&b, "(m%d (make-mutex)) ", i)
 	}
@@ -785,6 +800,11 @@ var (
 )
 
 func calibrate() {
+	// the packages do-symbols / do-external-symbols walk over
+	two := slip.DefPackage("c07-two", nil, "two exported variables")
+	two.Set("aa", slip.Fixnum(1)).Export = true
+	two.Set("bb", slip.Fixnum(2)).Export = true
+	slip.DefPackage("c07-zero", nil, "no symbols")
 	for _, k := range errLeaves {
 		r := lispsim.Eval(lispsim.Read(errForm(k)), slip.NewScope())
 		errClass[k] = r.Cond
